@@ -78,13 +78,21 @@ func ZZ_C14_Head(kind, sizeIdx, queue int) {
 
 // zzConn is an in-memory net.Conn recording what the peer receives (used under the real buffered transports).
 type zzConn struct {
-	received []byte
-	closed   bool
+	received  []byte
+	closed    bool
+	closes    int
+	failWrite bool // every Write fails (a broken connection)
 }
 
-func (c *zzConn) Write(p []byte) (int, error)        { c.received = append(c.received, p...); return len(p), nil }
+func (c *zzConn) Write(p []byte) (int, error) {
+	if c.failWrite {
+		return 0, zzErrClosed
+	}
+	c.received = append(c.received, p...)
+	return len(p), nil
+}
 func (c *zzConn) Read(p []byte) (int, error)         { return 0, io.EOF }
-func (c *zzConn) Close() error                       { c.closed = true; return nil }
+func (c *zzConn) Close() error                       { c.closed = true; c.closes++; return nil }
 func (c *zzConn) LocalAddr() net.Addr                { return zzAddr{} }
 func (c *zzConn) RemoteAddr() net.Addr               { return zzAddr{} }
 func (c *zzConn) SetDeadline(time.Time) error        { return nil }
